@@ -5,6 +5,7 @@ and the lock regions, Show and Sync, and the environment's moves (window resize 
 notification, external corruption of the display).  Core-only, executable.
 -/
 import Tcell.Model.Draw
+import Tcell.Model.LockRegion
 namespace Tcell
 
 inductive ScrOp where
@@ -20,31 +21,6 @@ inductive ScrOp where
   | ttyResizeNotify (w h : Int)    -- the window changes size and mainLoop's resize branch runs (tscreen.go:1823)
   | corrupt                        -- something else wrote to the terminal
 deriving Repr
-
-/-- one row of LockRegion's inner loop: columns x … x+n-1 -/
-def lockRow (b : Buf) (x y : Int) (lock : Bool) : Nat → Buf
-  | 0 => b
-  | n + 1 =>
-    let b' := lockRow b x y lock n
-    if lock then b'.lockCell (x + n) y else b'.unlockCell (x + n) y
-
-/-- LockRegion's outer loop: rows y … y+m-1 (screen.go:427) -/
-def lockRows (b : Buf) (x y w : Int) (lock : Bool) : Nat → Buf
-  | 0 => b
-  | m + 1 => lockRow (lockRows b x y w lock m) x (y + m) lock w.toNat
-
-/-- repaired tree only (fixes/C13-wide-left-of-locked.patch, screen.go LockRegion): after a row of the region has been
-    unlocked, a wide rune in the column just left of it (which drawCell showed as a blank while its right half was locked)
-    is marked dirty: `if _, _, _, w := cells.GetContent(x-1, j); w > 1 { cells.SetDirty(x-1, j, true) }` -/
-def redirtyLeft (b : Buf) (x y : Int) : Buf :=
-  if (b.getContent (x - 1) y).2.2.2 > 1 then b.setDirty (x - 1) y true else b
-
-/-- LockRegion of the repaired tree: `lockRows` with the re-dirtying step after each unlocked, non-empty row -/
-def lockRowsG (b : Buf) (x y w : Int) (lock : Bool) : Nat → Buf
-  | 0 => b
-  | m + 1 =>
-    let b' := lockRow (lockRowsG b x y w lock m) x (y + m) lock w.toNat
-    if lock = false ∧ w > 0 then redirtyLeft b' x (y + m) else b'
 
 /-- the screen together with the size its tty currently reports -/
 structure ScrW where
